@@ -94,47 +94,74 @@ func rulePathResolve(c *Ctx, r *Report) {
 	if f := c.MustFunc(r, "ygot", "NodePath.relPath"); f != nil {
 		info := f.Info()
 		g := newGM(c, f)
+		// loops over a field of the receiver: in relPath itself, or in a helper that is handed
+		// the field as an argument (then the loop ranges over the helper's parameter).
+		type fieldLoop struct {
+			fn *FuncInfo
+			rs *ast.RangeStmt
+		}
+		loopsOver := func(field string) []fieldLoop {
+			var out []fieldLoop
+			isField := func(e ast.Expr) bool {
+				sel, ok := ast.Unparen(e).(*ast.SelectorExpr)
+				return ok && sel.Sel.Name == field && ObjOf(info, sel.X) == g.recv
+			}
+			ast.Inspect(f.Decl.Body, func(n ast.Node) bool {
+				switch x := n.(type) {
+				case *ast.RangeStmt:
+					if isField(x.X) {
+						out = append(out, fieldLoop{f, x})
+					}
+				case *ast.CallExpr:
+					h := c.funcOfCallee(Callee(info, x))
+					if h == nil || h == f {
+						return true
+					}
+					hp := paramObjs(h)
+					for i, a := range x.Args {
+						if !isField(a) || i >= len(hp) {
+							continue
+						}
+						ast.Inspect(h.Decl.Body, func(m ast.Node) bool {
+							if rs, ok := m.(*ast.RangeStmt); ok && ObjOf(h.Info(), rs.X) == hp[i] {
+								out = append(out, fieldLoop{h, rs})
+							}
+							return true
+						})
+					}
+				}
+				return true
+			})
+			return out
+		}
 		// names in order.
 		names := false
-		var keysLoop *ast.RangeStmt
-		ast.Inspect(f.Decl.Body, func(n ast.Node) bool {
-			rs, ok := n.(*ast.RangeStmt)
-			if !ok {
-				return true
-			}
-			sel, ok := ast.Unparen(rs.X).(*ast.SelectorExpr)
-			if !ok || ObjOf(info, sel.X) != g.recv {
-				return true
-			}
-			switch sel.Sel.Name {
-			case "relSchemaPath":
-				// body: append(pathElems, &PathElem{Name: name})
-				ast.Inspect(rs.Body, func(m ast.Node) bool {
-					if cl, ok := m.(*ast.CompositeLit); ok && strings.HasSuffix(typeName(info, cl.Type), "PathElem") {
-						for _, el := range cl.Elts {
-							if kv, ok := el.(*ast.KeyValueExpr); ok && kv.Key.(*ast.Ident).Name == "Name" && rs.Value != nil && ObjOf(info, kv.Value) == ObjOf(info, rs.Value) {
-								names = true
-							}
+		for _, fl := range loopsOver("relSchemaPath") {
+			linfo, rs := fl.fn.Info(), fl.rs
+			// body: append(pathElems, &PathElem{Name: name})
+			ast.Inspect(rs.Body, func(m ast.Node) bool {
+				if cl, ok := m.(*ast.CompositeLit); ok && strings.HasSuffix(typeName(linfo, cl.Type), "PathElem") {
+					for _, el := range cl.Elts {
+						if kv, ok := el.(*ast.KeyValueExpr); ok && kv.Key.(*ast.Ident).Name == "Name" && rs.Value != nil && ObjOf(linfo, kv.Value) == ObjOf(linfo, rs.Value) {
+							names = true
 						}
 					}
-					return true
-				})
-				if len(branchStmts(rs.Body, token.CONTINUE))+len(branchStmts(rs.Body, token.BREAK)) > 0 {
-					names = false
 				}
-			case "keys":
-				keysLoop = rs
+				return true
+			})
+			if len(branchStmts(rs.Body, token.CONTINUE))+len(branchStmts(rs.Body, token.BREAK)) > 0 {
+				names = false
 			}
-			return true
-		})
+		}
 		r.Check(names, "ygot.NodePath.relPath:names", c.Pos(f.Decl.Pos()), "one PathElem{Name: name} per relSchemaPath element, in order", "relPath does not emit exactly the node's relative schema path names in order")
 		keysOK := false
-		if keysLoop != nil {
-			calls := CallsIn(info, keysLoop.Body, P("ygot")+".KeyValueAsString")
-			if len(calls) == 1 && keysLoop.Value != nil && ObjOf(info, calls[0].Args[0]) == ObjOf(info, keysLoop.Value) {
+		for _, fl := range loopsOver("keys") {
+			linfo, keysLoop := fl.fn.Info(), fl.rs
+			calls := CallsIn(linfo, keysLoop.Body, P("ygot")+".KeyValueAsString")
+			if len(calls) == 1 && keysLoop.Value != nil && ObjOf(linfo, calls[0].Args[0]) == ObjOf(linfo, keysLoop.Value) {
 				// stored under the same name.
-				if as, ok := c.parentMap(f.File)[calls[0]].(*ast.AssignStmt); ok {
-					if ix, ok := as.Lhs[0].(*ast.IndexExpr); ok && keysLoop.Key != nil && ObjOf(info, ix.Index) == ObjOf(info, keysLoop.Key) {
+				if as, ok := c.parentMap(fl.fn.File)[calls[0]].(*ast.AssignStmt); ok {
+					if ix, ok := as.Lhs[0].(*ast.IndexExpr); ok && keysLoop.Key != nil && ObjOf(linfo, ix.Index) == ObjOf(linfo, keysLoop.Key) {
 						keysOK = true
 					}
 				}
@@ -149,8 +176,17 @@ func rulePathResolve(c *Ctx, r *Report) {
 		ast.Inspect(f.Decl.Body, func(n ast.Node) bool {
 			if as, ok := n.(*ast.AssignStmt); ok && len(as.Lhs) == 1 {
 				if sel, ok := as.Lhs[0].(*ast.SelectorExpr); ok && sel.Sel.Name == "Key" {
-					if ix, ok := ast.Unparen(sel.X).(*ast.IndexExpr); ok && strings.Contains(types.ExprString(ix.Index), "len(") && strings.HasSuffix(strings.ReplaceAll(types.ExprString(ix.Index), " ", ""), "-1") {
-						attach = true
+					if ix, ok := ast.Unparen(sel.X).(*ast.IndexExpr); ok {
+						idx := ast.Unparen(ix.Index)
+						// a hoisted index (last := len(pathElems) - 1) stands for its definition.
+						if id, isID := idx.(*ast.Ident); isID {
+							if d := oneToOneDef(f, info.ObjectOf(id)); d != nil {
+								idx = ast.Unparen(d)
+							}
+						}
+						if strings.Contains(types.ExprString(idx), "len(") && strings.HasSuffix(strings.ReplaceAll(types.ExprString(idx), " ", ""), "-1") {
+							attach = true
+						}
 					}
 				}
 			}
@@ -263,7 +299,7 @@ type ChildAny struct{ *ygot.NodePath }
 
 // rulePathKeyEntries: R-PATH-KEYS (generator side).
 func rulePathKeyEntries(c *Ctx, r *Report) {
-	r.Rule("R-PATH-KEYS", "in ypathgen every list constructor's key map is the join of one entry per key, each either \"<schema key name>\": <parameter> or \"<schema key name>\": \"*\"; the empty key map is used only for the all-wildcard constructor of the non-builder API under SimplifyWildcardPaths; the builder-format generator never receives that flag and initialises every key to \"*\" in an ascending loop over all keys; the relative path list comes from the field's MappedPaths, the same IR data gogen's `path` tag is built from", 7)
+	r.Rule("R-PATH-KEYS", "in ypathgen every list constructor's key map is the join of one entry per key, each either \"<schema key name>\": <parameter> or \"<schema key name>\": \"*\"; the empty key map is used only for the all-wildcard constructor of the non-builder API under SimplifyWildcardPaths; the builder-format generator never receives that flag and initialises every key to \"*\" in an ascending loop over all keys; the relative path list comes from the field's MappedPaths, the same IR data gogen's `path` tag is built from", 5)
 	for _, name := range []string{"generateChildConstructorsForList", "generateChildConstructorsForListBuilderFormat"} {
 		f := c.MustFunc(r, "ypathgen", name)
 		if f == nil {
